@@ -16,6 +16,7 @@ import (
 
 type CompactionWorker struct {
 	bs      store.BadgerStore
+	dsm     *server.DsManager
 	logger  *zap.SugaredLogger
 	running bool
 }
@@ -24,6 +25,7 @@ func NewCompactor(store *server.Store, dsm *server.DsManager, logger *zap.Sugare
 	bs := server.NewBadgerAccess(store, dsm)
 	return &CompactionWorker{
 		bs:     bs,
+		dsm:    dsm,
 		logger: logger.Named("compaction-worker"),
 	}
 }
@@ -51,6 +53,15 @@ func (c *CompactionWorker) compact(datasetID string, strategy CompactionStrategy
 	dsId, b := c.bs.LookupDatasetID(datasetID)
 	if !b {
 		return fmt.Errorf("dataset %s not found", datasetID)
+	}
+	// the plan (which versions to drop, which latest pointers to move back to the kept version) is made from
+	// one snapshot and flushed later: a write to the dataset in between would be undone by a stale pointer.
+	// Writers of this dataset wait until the compaction is through.
+	if c.dsm != nil {
+		if ds := c.dsm.GetDataset(datasetID); ds != nil {
+			ds.WriteLock.Lock()
+			defer ds.WriteLock.Unlock()
+		}
 	}
 	txn := c.bs.GetDB().NewTransaction(false)
 	defer txn.Discard()
